@@ -1,12 +1,13 @@
 (* Properties_C13.v — a provider withdraws or replaces everything it stops serving. *)
-From QV Require Import Base Fields SrcFacts Msg SrcDecisions Sim Prober Hostname Provider ProviderSpec ProviderProofs.
+From QV Require Import Base Fields SrcFacts Msg SrcDecisions Cache CacheSpec Sim Prober Hostname Provider ProviderSpec ProviderProofs ProviderListener.
 Local Open Scope Z_scope.
 
-(* PARTIAL.  Proved: farewell() multicasts exactly the currently published PTR, SRV and TXT with TTL 0; a completed
+(* Handler level (the run-level listener theorem follows below).  Proved: farewell() multicasts exactly the currently published PTR, SRV and TXT with TTL 0; a completed
    probe of an already confirmed provider says that goodbye BEFORE announcing the replacement; the SRV and TXT
    proposals of a new provider carry the cache-flush bit.  The listener statement (a passive RFC 6762 cache holds
    exactly the served records once activity has stopped, nothing after destruction; no change of name, type or SRV
-   target without a goodbye) is enforced on every run by the acceptor (codes 40, 41, 42); its proof is not yet written. *)
+   target without a goodbye) is proved below on the model and enforced on every run by the acceptor (codes 40, 41, 42)
+   on the implementation's traces. *)
 Theorem C13_farewell_withdraws_partial p :
   snd (farewell p) = [ESendAll (add_record (set_ttl 0 (pv_txt p)) (add_record (set_ttl 0 (pv_srv p))
                         (add_record (set_ttl 0 (pv_ptr p)) (set_response true default_message))))].
@@ -24,3 +25,44 @@ Print Assumptions C13_goodbye_before_replacement_partial.
 Theorem C13_unique_records_flush_partial : r_flush (pv_srvP prov_new) = true /\ r_flush (pv_txtP prov_new) = true.
 Proof. split; reflexivity. Qed.
 Print Assumptions C13_unique_records_flush_partial.
+
+(* ---- run level: the passive listener ----
+   [listen L es]: the listener's cache after hearing the multicast responses among the effects es, by the RFC 6762
+   rules: a record with the cache-flush bit replaces every record of its name and type, any record replaces an equal one
+   (Record::operator==), a TTL-0 record removes instead of adding.  (No expiry: the provider's TTLs are hours and the
+   property speaks of the state once activity has stopped.)
+   [lreach c L]: c is a state of the hostname + provider + prober composite reached from the start by ANY sequence of
+   handler invocations at any instants - messages, any timer, update, destroy, creation of the provider (one provider
+   object at a time) - and L the listener's cache after all the multicasts so far. *)
+
+(* whenever the provider exists and is confirmed, the listener holds exactly its current PTR, SRV and TXT records (all with
+   nonzero TTL); in particular every earlier name, type, target, port or attribute set has been withdrawn or replaced *)
+Theorem C13_listener_holds_exactly_the_served_records c L :
+  lreach c L -> pv_exists (cp_prov c) = true -> pv_confirmed (cp_prov c) = true ->
+  L = [pv_ptr (cp_prov c); pv_srv (cp_prov c); pv_txt (cp_prov c)] /\
+  r_ttl (pv_ptr (cp_prov c)) <> 0%N /\ r_ttl (pv_srv (cp_prov c)) <> 0%N /\ r_ttl (pv_txt (cp_prov c)) <> 0%N.
+Proof.
+  intros R E C. destruct (ci_served _ _ (lreach_inv c L R) E C) as (_ & (A1 & A2 & A3) & _ & _ & HL). auto.
+Qed.
+Print Assumptions C13_listener_holds_exactly_the_served_records.
+
+(* and nothing once the provider has been destroyed (or before it has confirmed a name) *)
+Theorem C13_listener_holds_nothing_otherwise c L :
+  lreach c L -> pv_exists (cp_prov c) && pv_confirmed (cp_prov c) = false -> L = [].
+Proof. intros R H. exact (ci_unserved _ _ (lreach_inv c L R) H). Qed.
+Print Assumptions C13_listener_holds_nothing_otherwise.
+
+(* non-vacuity: register, offer a service, rename it, destroy the provider *)
+Example C13_nonvacuous :
+  let h0 := fst (on_rebroadcast (mkHost [118; 109]%N [] [] [] false 1)) in
+  let c0 := mkComp h0 no_prov None in
+  let svc := fun n => mkService (Some [95; 116; 46]%N) (Some n) None 80 [] in
+  let evs := [(2000, EvTimer T_REG); (2000, EvApi PNewProv); (2000, EvApi (PUpdate (svc [97]%N))); (4000, EvTimer T_PROBER);
+              (5000, EvApi (PUpdate (svc [98]%N))); (7000, EvTimer T_PROBER)] in
+  let run := fold_left (fun cl ne => (fst (comp_handle (fst ne) (fst cl) (snd ne)),
+                                      listen (snd cl) (snd (comp_handle (fst ne) (fst cl) (snd ne))))) evs (c0, []) in
+  map (fun r => (r_type r, bs_data (r_name r))) (snd run) =
+    [(12%N, [95; 116; 46]%N); (33%N, [98; 46; 95; 116; 46]%N); (16%N, [98; 46; 95; 116; 46]%N)] /\
+  pv_confirmed (cp_prov (fst run)) = true /\
+  snd (let c := fst run in (c, listen (snd run) (snd (comp_handle 8000 c (EvApi PDestroy))))) = [].
+Proof. vm_compute. repeat split. Qed.
